@@ -217,7 +217,22 @@ def rules(pname, a_zero):
     return _RULES[key]
 
 
+def time_pieces(tint):
+    """The time rules are tuned for intervals that start at 0 or have end / start <= 2; the integrals are additive in time, so
+    wider intervals (custom time grids) are cut into geometric pieces of ratio <= 2."""
+    a, b = float(tint[0]), float(tint[1])
+    cuts = [a]
+    while a > 0 and cuts[-1] * 2 < b:
+        cuts.append(cuts[-1] * 2)
+    cuts.append(b)
+    return list(zip(cuts, cuts[1:]))
+
+
 def load_segment(dom, terms, tint, p0, p1, pname='std', breaks=(), generic=False):
+    return math.fsum(_load_segment(dom, terms, ti, p0, p1, pname, breaks, generic) for ti in time_pieces(tint))
+
+
+def _load_segment(dom, terms, tint, p0, p1, pname='std', breaks=(), generic=False):
     """int_a^b int_0^1 (M0 u0)(t, p0 + s (p1-p0)) |p1-p0| ds dt for an axis-parallel segment p0 -> p1."""
     a, b = float(tint[0]), float(tint[1])
     tx, tw, sx, sw = rules(pname, a == 0.0)
@@ -246,6 +261,10 @@ def load_segment(dom, terms, tint, p0, p1, pname='std', breaks=(), generic=False
 
 
 def load_const_semianalytic(dom, tint, p0, p1, pname='std'):
+    return math.fsum(_load_const_semianalytic(dom, ti, p0, p1, pname) for ti in time_pieces(tint))
+
+
+def _load_const_semianalytic(dom, tint, p0, p1, pname='std'):
     """u0 = 1, space integral in closed form (Phi(z) = z erf z + exp(-z^2)/sqrt(pi) is a primitive of erf), time by the
     graded rule: an independent check of the space rule of load_segment."""
     a, b = float(tint[0]), float(tint[1])
